@@ -1,3 +1,5 @@
+import Ntrip.Proofs.QueueConc
+import Ntrip.Guards.Writes
 import Ntrip.Proofs.Queue
 import Ntrip.Generated.Skeletons
 import Ntrip.Guards.Queue
@@ -43,6 +45,77 @@ theorem snapshot_after_prefix {α : Type} (N : Nat) (hN : 1 ≤ N) (before after
     simp [CQ.adds, List.foldl_append]
   rw [this]; exact snapshot_is_last_N N hN _
 
+/-! ## Concurrent use
+
+`Ntrip.QC` (`Model/QueueConc.lean`) is a transition system of any number of goroutines calling
+`Add` and `GetMessages`, each broken into its micro-steps on the shared map (`Add`: the test,
+the snapshot of the keys, one `delete` per loop iteration, the map assignment, the increment;
+`GetMessages`: the snapshot of the keys, one lookup per iteration), interleaved arbitrarily under
+the discipline of the `RWMutex`.  `order` is the list of additions in the order in which they
+obtained the lock; a returned snapshot is recorded with the number of additions that had obtained
+the lock before the reader did.  A goroutine obtains the lock between its invocation and its
+return, so lock order respects real-time order. -/
+
+/-- **Linearizability in lock order**: in every reachable state, for every interleaving of the
+    micro-steps of any number of adders and readers, every snapshot that has been returned is
+    exactly the last `min(N, n)` of the first `n` additions in lock order, where `n` additions had
+    obtained the lock before the reader — never a partial state, never out of order. -/
+theorem concurrent_snapshots_linearizable {α : Type} (N : Nat) (hN : 1 ≤ N) {s : QC.S α}
+    (h : QC.Reach true (N : Int) s) :
+    ∀ p ∈ s.rets, p.1 ≤ s.order.length ∧
+      p.2 = (s.order.take p.1).drop ((s.order.take p.1).length - N) := by
+  intro p hp
+  obtain ⟨h1, h2⟩ := (QC.inv_reach (N : Int) h).rets p hp
+  exact ⟨h1, by rw [h2]; exact (queue_spec N hN _).1⟩
+
+/-- While nobody is inside `Add`, the shared map is exactly the sequential queue after the
+    additions in lock order (so it holds at most `N` messages: `never_more_than_N`); while one
+    goroutine is inside `Add`, no other goroutine is inside `Add` or `GetMessages`. -/
+theorem concurrent_state {α : Type} (N : Nat) {s : QC.S α} (h : QC.Reach true (N : Int) s) :
+    ((∀ t, (s.th t).inW = false) → s.q = (CQ.new (N : Int)).adds s.order) ∧
+    (∀ t u, t ≠ u → (s.th t).inW = true → (s.th u).inW = false ∧ (s.th u).inR = false) :=
+  ⟨(QC.inv_reach (N : Int) h).absIdle, (QC.inv_reach (N : Int) h).excl⟩
+
+/-- The lock is necessary: the same code with the lock calls removed has an execution (kernel-
+    checked) in which a reader that started after two additions had begun returns the EMPTY
+    snapshot from a queue of capacity 1 — it looked between the `delete` and the assignment. -/
+theorem without_lock_partial_state_is_seen :
+    ∃ s : QC.S Nat, QC.Reach false 1 s ∧ (2, []) ∈ s.rets ∧ s.order = [7, 8] := by
+  have r0 : QC.Reach false 1 (QC.init Nat 1) := .init
+  have r1 := QC.Reach.step r0 (QC.Step.invAdd _ 0 7 rfl)
+  have r2 := QC.Reach.step r1 (QC.Step.lockW _ 0 7 rfl (by intro h; cases h))
+  have r3 := QC.Reach.step r2 (QC.Step.microW _ 0 rfl (by intro h; cases h))
+  have r4 := QC.Reach.step r3 (QC.Step.microW _ 0 rfl (by intro h; cases h))
+  have r5 := QC.Reach.step r4 (QC.Step.microW _ 0 rfl (by intro h; cases h))
+  have r6 := QC.Reach.step r5 (QC.Step.unlockW _ 0 rfl)
+  have r7 := QC.Reach.step r6 (QC.Step.invAdd _ 0 8 rfl)
+  have r8 := QC.Reach.step r7 (QC.Step.lockW _ 0 8 rfl (by intro h; cases h))
+  have r9 := QC.Reach.step r8 (QC.Step.microW _ 0 rfl (by intro h; cases h))
+  have r10 := QC.Reach.step r9 (QC.Step.microW _ 0 rfl (by intro h; cases h))
+  have r11 := QC.Reach.step r10 (QC.Step.invGet _ 1 rfl)
+  have r12 := QC.Reach.step r11 (QC.Step.lockR _ 1 rfl (by intro h; cases h))
+  have r13 := QC.Reach.step r12 (QC.Step.microR _ 1 rfl (by intro n acc h; cases h))
+  have r14 := QC.Reach.step r13 (QC.Step.unlockR _ 1 2 [] rfl)
+  have r15 := QC.Reach.step r14 (QC.Step.retGet _ 1 2 [] rfl)
+  exact ⟨_, r15, by simp, rfl⟩
+
+/-- Non-vacuity: with the lock, a reachable state with a returned snapshot. -/
+example : ∃ s : QC.S Nat, QC.Reach true 1 s ∧ s.rets = [(1, [7])] := by
+  have r0 : QC.Reach true 1 (QC.init Nat 1) := .init
+  have r1 := QC.Reach.step r0 (QC.Step.invAdd _ 0 7 rfl)
+  have r2 := QC.Reach.step r1 (QC.Step.lockW _ 0 7 rfl (by intro _ u; by_cases h : u = 0 <;> simp [QC.upd, QC.init, QC.T.inW, QC.T.inR, h]))
+  have r3 := QC.Reach.step r2 (QC.Step.microW _ 0 rfl (by intro h; cases h))
+  have r4 := QC.Reach.step r3 (QC.Step.microW _ 0 rfl (by intro h; cases h))
+  have r5 := QC.Reach.step r4 (QC.Step.microW _ 0 rfl (by intro h; cases h))
+  have r6 := QC.Reach.step r5 (QC.Step.unlockW _ 0 rfl)
+  have r7 := QC.Reach.step r6 (QC.Step.invGet _ 1 rfl)
+  have r8 := QC.Reach.step r7 (QC.Step.lockR _ 1 rfl (by intro _ u; by_cases h : u = 0 <;> by_cases h1 : u = 1 <;> simp [QC.upd, QC.init, QC.T.inW, QC.T.inR, QC.micro, h, h1]))
+  have r9 := QC.Reach.step r8 (QC.Step.microR _ 1 rfl (by intro n acc h; cases h))
+  have r10 := QC.Reach.step r9 (QC.Step.microR _ 1 rfl (by intro n acc h; cases h))
+  have r11 := QC.Reach.step r10 (QC.Step.unlockR _ 1 1 [7] rfl)
+  have r12 := QC.Reach.step r11 (QC.Step.retGet _ 1 1 [7] rfl)
+  exact ⟨_, r12, rfl⟩
+
 /-- Tie T1: `Add` = `Lock; defer Unlock; …`, `GetMessages` = `RLock; defer RUnlock; …`, and
     only `Add`, `GetMessages` and their helper touch `Items` / `NextIndex`. -/
 theorem tie_locking :
@@ -59,5 +132,8 @@ theorem tie_guards : type_of% Ntrip.Guards.queue := Ntrip.Guards.queue
 /-! Non-vacuity (tests). -/
 example : ((CQ.new 3).adds [1, 2, 3, 4, 5]).get = [3, 4, 5] := by decide
 example : ((CQ.new 1).adds [7, 8]).get = [8] ∧ ((CQ.new 8).adds [7, 8]).get = [7, 8] := by decide
+
+/-- Tie T1 (receiver writes): `Add` is the only method that writes the queue (`delete`, the map assignment, the index increment); `GetMessages` and the key helper write nothing shared. -/
+theorem tie_writes_queue_writers : type_of% Ntrip.Guards.queue_writers := Ntrip.Guards.queue_writers
 
 end Ntrip.C18
